@@ -45,11 +45,11 @@ def main():
                     except Exception as ex:  # noqa
                         tf["error"] = type(ex).__name__
                     out.append({"key": j["key"] + ":" + op + "_float", "variant": j["variant"], "kind": "scoring_float", "trace": tf})
-        elif j["kind"] == "pairwise":
+        elif j["kind"] in ("pairwise", "pairwise_many"):
             from harness.drivers.c06 import call_work
             t = call_work({"cands": j["cands"], "ballots": j["ballots"], "names": j["names"], "cand_order": j["cand_order"]})[0]
             t.pop("_inp", None)
-            out.append({"key": j["key"], "variant": j["variant"], "kind": "pairwise", "trace": t})
+            out.append({"key": j["key"], "variant": j["variant"], "kind": j["kind"], "trace": t})
     json.dump({"hashseed": os.environ.get("PYTHONHASHSEED"), "results": out}, open(out_path, "w"))
 
 
